@@ -91,4 +91,14 @@ theorem audit_entry_has_no_value_field :
 example : openFile Layout.v1 7 { version := 1, dek := aeadEnc 99 (adDEK "setec DEK v" 1) 5, db := aeadEnc 5 (adDB "setec database v" 1) [] } = none := by
   simp [openFile, aeadDec, aeadEnc]
 
+/-- T1, `kv.save` in calls: marshal the whole map, encrypt it under the data key, marshal the
+wrapper, and hand the bytes to `atomicfile.WriteFile` for the configured path with mode 0600 -
+nothing else: no call to the key-encryption key, no file operation of its own (no temporary
+file of its own naming, no copy kept beside the database, no rename of the live file), no
+per-secret shortcut. -/
+theorem fact_save_shape :
+    Facts.kvSaveCalls = ["json.Marshal", "kv.dekCipher.Encrypt", "aeadContextDB", "json.Marshal", "atomicfile.WriteFile"] ∧
+    Facts.kvSaveFileCalls = ["atomicfile.WriteFile(kv.path, out, 0600)"] := by
+  decide
+
 end Setec.C05
